@@ -2,9 +2,12 @@ pub mod common;
 pub mod c01;
 pub mod c02;
 pub mod c03;
+pub mod c04;
 pub mod c05;
 pub mod c06;
+pub mod c12;
 pub mod c14;
+pub mod c15;
 pub mod c18;
 
 use crate::report::{Local, Report};
@@ -17,9 +20,12 @@ pub fn table() -> Vec<(&'static str, RunFn, ReplayFn)> {
         ("C01", c01::run as RunFn, c01::replay as ReplayFn),
         ("C02", c02::run as RunFn, c02::replay as ReplayFn),
         ("C03", c03::run as RunFn, c03::replay as ReplayFn),
+        ("C04", c04::run as RunFn, c04::replay as ReplayFn),
         ("C05", c05::run as RunFn, c05::replay as ReplayFn),
         ("C06", c06::run as RunFn, c06::replay as ReplayFn),
+        ("C12", c12::run as RunFn, c12::replay as ReplayFn),
         ("C14", c14::run as RunFn, c14::replay as ReplayFn),
+        ("C15", c15::run as RunFn, c15::replay as ReplayFn),
         ("C18", c18::run as RunFn, c18::replay as ReplayFn),
     ]
 }
